@@ -6,7 +6,7 @@ Tie (T1): request sequences are played against the REAL main_server / handlers (
   recorded from nbformat / nbdime / os.path) and compared step by step: status, body, directory contents, stop, exit code.
 Property on the implementation (T2): evaluated directly on what the real server did, with oracles that share no code
   with nbdime's web layer (pyspec.spec_patch, nbformat, directory snapshots, the library called in a fresh process)."""
-import os, sys, json, copy, re, base64, hashlib, posixpath, tempfile, shutil, subprocess, math, urllib.parse
+import os, sys, time, json, copy, re, base64, hashlib, posixpath, tempfile, shutil, subprocess, math, urllib.parse
 from concurrent.futures import ThreadPoolExecutor
 import core, pyspec, c20_gen
 
@@ -598,8 +598,11 @@ def minimise(sc, i, sig, T):
 
 def run(tier, seed):
     chk = core.Check(PROP, tier, seed)
+    tm = {}; t0 = time.time()
     b = core.build()
+    tm['build'] = time.time() - t0; t0 = time.time()
     proofs_ok = chk.proof_obligations('Props/C20.v', b)
+    tm['obligations'] = time.time() - t0; t0 = time.time()
     r = chk.rng
     nscn = 160 if tier == 'quick' else 1500
     tasks = [c20_gen.f12_scenario()] + [c20_gen.gen_scenario(r) for _ in range(nscn)]
@@ -616,7 +619,9 @@ def run(tier, seed):
             chk.broken_obligation('implementation-run', {'start': t['start'], 'result': res})
             continue
         scns.append(Scn(t, res))
+    tm['play'] = time.time() - t0; t0 = time.time()
     prepare_tables(T, scns)
+    tm['tables'] = time.time() - t0; t0 = time.time()
 
     # ---- refutation witness of malformed_no_effect_as_coded replayed on the implementation
     fact = store_order_fact()
@@ -653,7 +658,9 @@ def run(tier, seed):
     if tier == 'quick' and len(fresh_tasks) > 700:
         sel = sorted(r.sample(range(len(fresh_tasks)), 700))
         fresh_tasks = [fresh_tasks[k] for k in sel]; fresh_idx = [fresh_idx[k] for k in sel]
+    tm['judge'] = time.time() - t0; t0 = time.time()
     fres = play(fresh_tasks)
+    tm['fresh'] = time.time() - t0; t0 = time.time()
     nfresh = 0
     for (si, i), t, fr in zip(fresh_idx, fresh_tasks, fres):
         sc = scns[si]
@@ -699,6 +706,8 @@ def run(tier, seed):
                     'model': (shown or '')[-1200:], 'scenario': {'op': 'serve', 'start': sc.start, 'files': sc.task['files'], 'requests': sc.reqs}})
     else:
         chk.broken_obligation('model-build', b.log[-800:])
+    tm['coq_cases'] = time.time() - t0
+    chk.notes.append('phase seconds: ' + ', '.join('%s=%.1f' % kv for kv in tm.items()))
     chk.cov.update({
         'evaluations': steps, 'distinct_nontrivial': len(nontrivial),
         'rule': 'HTTP requests played one after the other against the real main_server in generated start-up modes (plain, diff web, diff tool, merge web, merge tool; output file relative/absolute/absent/empty/unwritable; closable or not; base_url /, /nb/, /a/b, /x) over generated notebook files; a request is non-trivial when it is a POST routed to one of the four API handlers; distinct by (start-up parameters, request, directory contents before)',
